@@ -69,6 +69,7 @@ type Machine struct {
 	noMerge bool
 	mergeLoops bool
 	deadline time.Time
+	inPerAlt bool
 	extern  map[string]externFn
 	varSeq  map[string]int
 	now     time.Time
@@ -235,6 +236,9 @@ func (m *Machine) callFn(fn *ssa.Function, args []value, env []value, site ssa.I
 	if ext, ok := m.lookupExtern(fn); ok {
 		return ext(m, args, site)
 	}
+	if r, ok := m.perAlternative(fn, args, env, site); ok {
+		return r
+	}
 	if fn.Blocks == nil {
 		panic(unsupported("no body for " + name))
 	}
@@ -259,6 +263,89 @@ func (m *Machine) callFn(fn *ssa.Function, args []value, env []value, site ssa.I
 	}
 	fr.block = fn.Blocks[0]
 	return m.runFrame(fr)
+}
+
+type perAltAbort struct{}
+
+// perAlternative: a call into the table-lookup package LunarUtil with choice
+// strings (or small-range ints) among its arguments is evaluated once per
+// alternative by interpreting the real callee on concrete values, and the
+// results are merged under the alternatives' guards.  No solver query is
+// needed; the callee must not branch on anything symbolic (else: fall back).
+func (m *Machine) perAlternative(fn *ssa.Function, args []value, env []value, site ssa.Instruction) (res value, ok bool) {
+	if m.inPerAlt || fn.Pkg == nil || fn.Blocks == nil {
+		return nil, false
+	}
+	switch fn.Pkg.Pkg.Path() {
+	case "github.com/6tail/lunar-go/LunarUtil", "github.com/6tail/lunar-go/FotoUtil", "github.com/6tail/lunar-go/TaoUtil":
+	default:
+		if fn.Name() != "convertJieQi" {
+			return nil, false
+		}
+	}
+	sym := false
+	for _, a := range args {
+		switch x := a.(type) {
+		case *SymStr:
+			if _, ok := m.altsOfCheap(x); !ok {
+				return nil, false
+			}
+			sym = true
+		case *Term:
+			if x.sort != SInt || x.lo <= -inf || x.hi >= inf || x.hi-x.lo > 64 {
+				return nil, false
+			}
+			sym = true
+		case int64, string, bool, float64:
+		case SliceV:
+			for _, e := range x.arr[x.off : x.off+x.len] {
+				if isSymbolic(e) {
+					return nil, false
+				}
+			}
+		default:
+			return nil, false
+		}
+	}
+	if !sym {
+		return nil, false
+	}
+	mark := len(m.trail)
+	defer func() {
+		m.inPerAlt = false
+		if r := recover(); r != nil {
+			if _, isAbort := r.(perAltAbort); isAbort {
+				m.undoTo(mark)
+				res, ok = nil, false
+				return
+			}
+			if _, isUns := r.(unsupported); isUns {
+				m.undoTo(mark)
+				res, ok = nil, false
+				return
+			}
+			panic(r)
+		}
+	}()
+	m.inPerAlt = true
+	r := m.liftStr(args, func(conc []value) value {
+		before := len(m.trail)
+		v := m.callFn(fn, conc, env, site)
+		if len(m.trail) != before {
+			// writes are only tolerated to objects the callee allocated itself; be conservative
+			for _, u := range m.trail[before:] {
+				if u.kind != 0 {
+					panic(perAltAbort{})
+				}
+			}
+		}
+		switch v.(type) {
+		case int64, string, bool:
+			return v
+		}
+		panic(perAltAbort{})
+	})
+	return r, true
 }
 
 func (m *Machine) interpretable(path string) bool {
@@ -827,7 +914,7 @@ func (m *Machine) slice(fr *frame, in *ssa.Slice) value {
 		if lo < 0 || hi > int64(x.cap) || lo > hi {
 			m.tpanic(in.Pos(), "slice bounds out of range [%d:%d] with capacity %d", lo, hi, x.cap)
 		}
-		return SliceV{arr: x.arr, off: x.off + int(lo), len: int(hi - lo), cap: x.cap - int(lo)}
+		return SliceV{arr: x.arr, off: x.off + int(lo), len: int(hi - lo), cap: x.cap - int(lo), src: x.src, srcBytes: x.srcBytes, srcLo: x.srcLo + int(lo)}
 	case *value: // pointer to array
 		arr := (*x).(Array)
 		if hi < 0 {
